@@ -57,7 +57,7 @@ def corpus():
         "gaussvol %s %d %d" % (hx("1/ns"), 3600 * _plan.S, 60 * _plan.S),
         "bramp 1 120 1000000000 %d %d %s 60000000000" % (60 * _plan.S, 60 * _plan.S, "0,%d,%d" % (30 * _plan.S, 60 * _plan.S)),    # 1/s -> 120/m: different units
         "bramp 10 200 100000000 %d %d %s 1000000000" % (10 * _plan.S, 10 * _plan.S, "0,%d,%d" % (5 * _plan.S, 10 * _plan.S)),       # 10/100ms -> 200/s
-    ] + _plan.cli_corpus()
+    ] + [c for c in _plan.cli_corpus() if " timestage=" not in c]      # (the timed-stage cases belong to C16 / C01: known finding D23)
 
 
 def generate(rng, tier):
